@@ -400,10 +400,12 @@ def _exec_npz(run, rd):
                            expected=(Exception,))
         if not ok:
             run.probe("fault_load_raised")
-        elif R.compare_saved_loaded(saved, res) is None:
-            run.probe("fault_load_intact")
         else:
-            run.probe("obs_fault_silent_damage")
+            try:  # a damaged file may load as something that is not even a tensor: observation only
+                intact = R.compare_saved_loaded(saved, res) is None
+            except Exception:  # noqa: BLE001
+                intact = False
+            run.probe("fault_load_intact" if intact else "obs_fault_silent_damage")
         run.summary = {"fault": info}
         return
     src = fs.open("inst.npz") if target == "simfile" else path
